@@ -91,16 +91,21 @@ where
             }
 
             match handle.as_mut().poll_next(cx) {
-                Poll::Ready(Some(sock)) => match sock {
-                    Socket::Stream(st) => {
-                        stream.as_mut().insert(*next_stream_id, st);
-                        *next_stream_id += 1;
+                Poll::Ready(Some(sock)) => {
+                    match sock {
+                        Socket::Stream(st) => {
+                            stream.as_mut().insert(*next_stream_id, st);
+                            *next_stream_id += 1;
+                        }
+                        Socket::Sink(si) => {
+                            sink.as_mut().insert(*next_sink_id, si);
+                            *next_sink_id += 1;
+                        }
                     }
-                    Socket::Sink(si) => {
-                        sink.as_mut().insert(*next_sink_id, si);
-                        *next_sink_id += 1;
-                    }
-                },
+                    // More sockets may be queued: poll the channel again so that we
+                    // never park without having registered our waker with it.
+                    continue;
+                }
                 // If handle is terminated, the stream is dead
                 Poll::Ready(None) => {
                     ready!(sink.as_mut().poll_flush(cx)).unwrap();
